@@ -28,7 +28,7 @@ func init() {
 			}
 			return []engine.Phase{
 				{Name: "tile-lists", ShardDepth: 3, Bounds: engine.Bounds{InputDev: -1},
-					Rule: "full product tile vZoom x E x outV x z class x O x hZoom class x list shape {[A],[A,A],[A,B(z+1)],[A,C(other footprint)],[A,B,C],[bad,A],[A,bad],[A,bad,B],[A,A at hZoom+1],[A at vZoom+1,A],[A,alias,A],[A,alias,B],[alias,A,alias]}; footprint unchanged, all at outV, per-tile indices = ConvertAltitudekeyToMinMaxZ range and contain the exact interval range, duplicate-free, error => nil result; spatial variant = union of expansions; non-trivial = distinct cases with >= 2 tiles and >= 2 indices per tile",
+					Rule: "full product tile vZoom x E x outV x z class x O x hZoom class x list shape {[A],[A,A],[A,B(z+1)],[A,C(other footprint)],[A,B,C],[bad,A],[A,bad],[A,bad,B],[A,A at hZoom+1],[A at vZoom+1,A],[A,alias,A],[A,alias,B],[alias,A,alias],[fine-low,fine-high,coarse],[fine-high,coarse,fine-low],[z,z+2,z+1],[z+2,z,z+1]}; footprint unchanged, all at outV, per-tile indices = ConvertAltitudekeyToMinMaxZ range and contain the exact interval range, duplicate-free, error => nil result; spatial variant = union of expansions; non-trivial = distinct cases with >= 2 tiles and >= 2 indices per tile",
 					Body: func(c *engine.Ctx) {
 						vz := zs[c.In("vZoom", len(zs))]
 						e := es[c.In("E", len(es))]
@@ -42,7 +42,7 @@ func init() {
 						if hz < 0 || hz > 35 {
 							c.Skip("hzoom-out-of-range")
 						}
-						shape := c.In("shape", 13)
+						shape := c.In("shape", 17)
 						hx := alpha.HIdxSmall(hz)
 						x, y := hx[len(hx)-1], hx[0]
 						type tl struct{ h, x, y, v, z int64 }
@@ -88,6 +88,28 @@ func init() {
 								tiles = []tl{A, al, B}
 							case 12:
 								tiles = []tl{al, A, al}
+							}
+						case 13, 14: // a coarse tile after two finer tiles that contain only its first and last slice
+							if vz < 2 {
+								c.Skip("no-coarser-vertical-zoom")
+							}
+							cz := z >> 2
+							lo, hi := tl{hz, x, y, vz, cz << 2}, tl{hz, x, y, vz, cz<<2 + 3}
+							co := tl{hz, x, y, vz - 2, cz}
+							if shape == 13 {
+								tiles = []tl{lo, hi, co}
+							} else {
+								tiles = []tl{hi, co, lo}
+							}
+						case 15, 16: // three neighbouring tiles out of order (ranges overlap when the offset is unaligned)
+							if z+2 >= n {
+								c.Skip("no-room-for-three-neighbours")
+							}
+							t0, t1, t2 := A, tl{hz, x, y, vz, z + 1}, tl{hz, x, y, vz, z + 2}
+							if shape == 15 {
+								tiles = []tl{t0, t2, t1}
+							} else {
+								tiles = []tl{t2, t0, t1}
 							}
 						case 9: // same numbers at the next vertical zoom
 							if vz+1 > 35 {
